@@ -112,25 +112,30 @@ def condsOf : Json → Option (List Cond)
 
 def member (ms : List (Bytes × Json)) (name : Bytes) : Option Json := (ms.find? fun m => m.1 = name).map (·.2)
 
-/-- a policy document; `none` = not a policy (no `expiration`, no `conditions`, unknown condition form, …) -/
-def ofJson : Json → Option Policy
+/-- a policy document; `none` = not a policy (no `expiration`, no `conditions`, unknown condition form, …).
+    `rd` reads the expiration text as an instant (seconds since the epoch). -/
+def ofJsonWith (rd : Bytes → Option Int) : Json → Option Policy
   | .obj ms =>
     match member ms sExpiration, member ms sConditions with
     | some (.str e), some (.arr cs) =>
-      match parseInstant e, cs.mapM condsOf with
+      match rd e, cs.mapM condsOf with
       | some t, some css => some ⟨t, css.flatten⟩
       | _, _ => none
     | _, _ => none
   | _ => none
 
 /-- the policy a form carries: base64 → JSON text → policy -/
-def decode (policyB64 : Bytes) : Option Policy :=
+def decodeWith (rd : Bytes → Option Int) (policyB64 : Bytes) : Option Policy :=
   match Crypto.base64Decode policyB64 with
   | none => none
   | some text =>
     match JsonText.parse text with
     | none => none
-    | some j => ofJson j
+    | some j => ofJsonWith rd j
+
+/-- with the strict ISO 8601 UTC reader of the AWS document -/
+def ofJson : Json → Option Policy := ofJsonWith parseInstant
+def decode (policyB64 : Bytes) : Option Policy := decodeWith parseInstant policyB64
 
 /-! ## evaluation -/
 
@@ -187,22 +192,37 @@ def defectOf (now : Int) (p : Policy) (fields : List (Bytes × Bytes)) (bucket :
 def PolicyCompliant (now : Int) (p : Policy) (fields : List (Bytes × Bytes)) (bucket : Bytes) (fileLen : Nat) : Bool :=
   (defectOf now p fields bucket fileLen).isNone
 
-/-- the same for the policy text a form carries (a text that is no policy complies with nothing) -/
-def formDefect (now : Int) (policyB64 : Bytes) (fields : List (Bytes × Bytes)) (bucket : Bytes) (fileLen : Nat) :
-    Option Defect :=
-  match decode policyB64 with
+/-- the same for the policy text a form carries (a text that is no policy complies with nothing); `rd` reads the
+    expiration text -/
+def formDefectWith (rd : Bytes → Option Int) (now : Int) (policyB64 : Bytes) (fields : List (Bytes × Bytes))
+    (bucket : Bytes) (fileLen : Nat) : Option Defect :=
+  match decodeWith rd policyB64 with
   | none => some .malformed
   | some p => defectOf now p fields bucket fileLen
+
+def formCompliantWith (rd : Bytes → Option Int) (now : Int) (policyB64 : Bytes) (fields : List (Bytes × Bytes))
+    (bucket : Bytes) (fileLen : Nat) : Bool :=
+  (formDefectWith rd now policyB64 fields bucket fileLen).isNone
+
+/-- with the strict ISO 8601 UTC reader of the AWS document (what the driver judges with) -/
+def formDefect (now : Int) (policyB64 : Bytes) (fields : List (Bytes × Bytes)) (bucket : Bytes) (fileLen : Nat) :
+    Option Defect := formDefectWith parseInstant now policyB64 fields bucket fileLen
 
 def formCompliant (now : Int) (policyB64 : Bytes) (fields : List (Bytes × Bytes)) (bucket : Bytes) (fileLen : Nat) : Bool :=
   (formDefect now policyB64 fields bucket fileLen).isNone
 
-theorem formCompliant_iff (now : Int) (policyB64 : Bytes) (fields : List (Bytes × Bytes)) (bucket : Bytes) (fileLen : Nat) :
-    formCompliant now policyB64 fields bucket fileLen = true ↔
-      ∃ p, decode policyB64 = some p ∧ PolicyCompliant now p fields bucket fileLen = true := by
-  unfold formCompliant formDefect PolicyCompliant
-  cases decode policyB64 with
+theorem formCompliantWith_iff (rd : Bytes → Option Int) (now : Int) (policyB64 : Bytes) (fields : List (Bytes × Bytes))
+    (bucket : Bytes) (fileLen : Nat) :
+    formCompliantWith rd now policyB64 fields bucket fileLen = true ↔
+      ∃ p, decodeWith rd policyB64 = some p ∧ PolicyCompliant now p fields bucket fileLen = true := by
+  unfold formCompliantWith formDefectWith PolicyCompliant
+  cases decodeWith rd policyB64 with
   | none => simp
   | some p => simp
+
+theorem formCompliant_iff (now : Int) (policyB64 : Bytes) (fields : List (Bytes × Bytes)) (bucket : Bytes) (fileLen : Nat) :
+    formCompliant now policyB64 fields bucket fileLen = true ↔
+      ∃ p, decode policyB64 = some p ∧ PolicyCompliant now p fields bucket fileLen = true :=
+  formCompliantWith_iff parseInstant now policyB64 fields bucket fileLen
 
 end S3V.PostPolicy
